@@ -1,10 +1,12 @@
 //go:build verif
 
-package fourq
+package fourq_test
 
-// C13 / FourQ: Point.Add, Point.ScalarMult (with its cofactor clearing by 392),
-// Point.ScalarBaseMult, and the internal pointR1 double/add/mixAdd/
-// ClearCofactor/ScalarMult, against the affine GF(p^2) model ref/ecurve.
+// C13 / FourQ, exported API only: Point.Add, Point.ScalarMult (with its cofactor
+// clearing by 392), Point.ScalarBaseMult, IsIdentity, IsOnCurve, Marshal,
+// Unmarshal, SetGenerator, SetIdentity, Params against the affine GF(p^2) model
+// ref/ecurve. External test package: it cannot name anything unexported.
+// (The internal pointR1 routines are exercised by zz_verif_c13_fourq_r1*_test.go.)
 
 import (
 	"bytes"
@@ -12,37 +14,46 @@ import (
 	"math/big"
 	"testing"
 
+	"github.com/cloudflare/circl/ecc/fourq"
 	"github.com/cloudflare/circl/internal/verifmc"
 	"github.com/cloudflare/circl/internal/verifref/curvealpha"
 	"github.com/cloudflare/circl/internal/verifref/ecurve"
 	"github.com/cloudflare/circl/internal/verifref/fpx"
 )
 
-func c13Pt(P ecurve.Point) *Point {
-	var Q Point
-	Q.X.setBigInt(P.X.A, P.X.B)
-	Q.Y.setBigInt(P.Y.A, P.Y.B)
-	return &Q
+func c13Fq(a, b *big.Int) (e fourq.Fq) {
+	copy(e[0][:], fpx.ToLE(a, fourq.SizeFp))
+	copy(e[1][:], fpx.ToLE(b, fourq.SizeFp))
+	return
 }
 
-func c13Key(k *big.Int) *[Size]byte {
-	var b [Size]byte
-	copy(b[:], fpx.ToLE(k, Size))
+func c13Pt(P ecurve.Point) *fourq.Point {
+	return &fourq.Point{X: c13Fq(P.X.A, P.X.B), Y: c13Fq(P.Y.A, P.Y.B)}
+}
+
+// c13FqInts reads an element as integers reduced mod p = 2^127-1 (the raw bytes may hold p itself).
+func c13FqInts(e *fourq.Fq, p *big.Int) (a, b *big.Int) {
+	return new(big.Int).Mod(fpx.FromLE(e[0][:]), p), new(big.Int).Mod(fpx.FromLE(e[1][:]), p)
+}
+
+func c13Key(k *big.Int) *[fourq.Size]byte {
+	var b [fourq.Size]byte
+	copy(b[:], fpx.ToLE(k, fourq.Size))
 	return &b
 }
 
 func TestVerifC13_fourq(t *testing.T) {
 	r := verifmc.Start(t, "C13", "fourq")
 	defer r.Finish()
-	r.Rule("FourQ: points PT = {O, +-kG, [(N+-1)/2]G, +-[s]G} from the reference's coordinates plus NS = 3 curve points outside the prime-order subgroup (smallest liftable y); " +
-		"Add on (PT+NS) x (PT+NS); ScalarMult(k, Q) = [392k]Q on SC x (PT+NS) with SC = curvealpha.Scalars(N, 256) as 32-byte little-endian; ScalarBaseMult on SC; " +
-		"internal pointR1.ScalarMult (no cofactor) on SC x PT, ClearCofactor on PT+NS, double/mixAdd on PT; results compared as affine GF(p^2) coordinates and encodings; before that, every predicate (Point.IsIdentity/IsOnCurve, pointR1.IsIdentity/IsOnCurve/isEqual against the expected point, SetIdentity, a computed identity T+(-T), the same point by another route, a different point) is queried directly on byte-identical copies of each freshly computed result, including chains ((P+Q)-Q)-P; distinct = distinct (operation, operand names)")
+	r.Rule("FourQ exported API: points PT = {O, +-kG, [(N+-1)/2]G, +-[s]G} from the reference's coordinates plus NS = 3 curve points outside the prime-order subgroup (smallest liftable y); " +
+		"Add on (PT+NS) x (PT+NS) with the chain ((P+Q)-Q)-P; ScalarMult(k, Q) = [392k]Q on SC x (PT+NS) with SC = curvealpha.Scalars(N, 256) as 32-byte little-endian; ScalarBaseMult on SC; " +
+		"Point.IsIdentity and Point.IsOnCurve are queried directly on byte-identical copies of each freshly computed result (before anything reduces its coordinates), then results are compared as affine GF(p^2) coordinates and encodings; " +
+		"distinct = distinct (operation, operand names)")
 	ref := ecurve.FourQ()
 	N := ref.N
-	prm := Params()
-	d0, d1 := paramD.toBigInt()
-	if prm.N.Cmp(N) != 0 || prm.P.Cmp(ref.F.P) != 0 || d0.Cmp(ref.D.A) != 0 || d1.Cmp(ref.D.B) != 0 {
-		r.Violation("C13|fourq.params|differ", "params", "package constants differ from the FourQ paper", nil)
+	p := ref.F.P
+	if prm := fourq.Params(); prm.N.Cmp(N) != 0 || prm.P.Cmp(p) != 0 {
+		r.Violation("C13|fourq.params|differ", "params", "Params() differs from the FourQ paper", nil)
 	}
 	sc := curvealpha.Scalars(N, 256, r.Seed())
 	logs := curvealpha.PointLogs(N)
@@ -72,21 +83,7 @@ func TestVerifC13_fourq(t *testing.T) {
 	bad := func(op, class, id, what string, payload interface{}) {
 		r.Violation("C13|fourq."+op+"|"+curvealpha.CoarseKey(class), id, what, payload)
 	}
-	same := func(x, y *Fq, want ecurve.Point) bool {
-		x0, x1 := x.toBigInt()
-		y0, y1 := y.toBigInt()
-		return x0.Cmp(want.X.A) == 0 && x1.Cmp(want.X.B) == 0 && y0.Cmp(want.Y.A) == 0 && y1.Cmp(want.Y.B) == 0
-	}
-	toR1 := func(P ecurve.Point) *pointR1 {
-		var R pointR1
-		c13Pt(P).toR1(&R)
-		return &R
-	}
-	// predsR1 queries every predicate of the package DIRECTLY on byte-identical
-	// copies of a freshly computed value (one copy per query, because the
-	// predicates reduce their receiver in place), before anything normalises it.
-	Tp := ref.BaseMult(big.NewInt(0x51ed27))
-	predsR1 := func(op, class, id string, fresh func() *pointR1, want ecurve.Point, payload interface{}) {
+	check := func(op, class, id string, got *fourq.Point, want ecurve.Point, payload interface{}) {
 		isID := ref.IsIdentity(want)
 		kind := "non-identity"
 		if isID {
@@ -95,76 +92,28 @@ func TestVerifC13_fourq(t *testing.T) {
 		} else {
 			r.Count("non_identity_results_queried", 1)
 		}
-		fail := func(pred string, got, exp bool) {
-			if got != exp {
-				bad(op, "predicate:"+pred+"|fresh-result|"+kind+"|"+class, id,
-					fmt.Sprintf("%s: %s = %v on the freshly computed result (raw coordinates %v), the reference says %v (result should be %v)", id, pred, got, *fresh(), exp, want), payload)
-			}
+		f1, f2 := *got, *got
+		if v := f1.IsIdentity(); v != isID {
+			bad(op, "predicate:IsIdentity|fresh-result|"+kind+"|"+class, id,
+				fmt.Sprintf("%s: Point.IsIdentity() = %v on the freshly computed result (raw coordinates %v), the reference says %v", id, v, *got, isID), payload)
 		}
-		fail("IsIdentity", fresh().IsIdentity(), isID)
-		fail("IsOnCurve", fresh().IsOnCurve(), true)
-		fail("isEqual(expected)", fresh().isEqual(toR1(want)), true)
-		fail("expected.isEqual(result)", toR1(want).isEqual(fresh()), true)
-		var I pointR1
-		I.SetIdentity()
-		fail("isEqual(SetIdentity)", fresh().isEqual(&I), isID)
-		// an identity produced by arithmetic: T + (-T), left in projective form
-		CI := toR1(Tp)
-		var nT pointR2
-		nT.FromR1(toR1(ref.Neg(Tp)))
-		CI.add(&nT)
-		fail("isEqual(T+(-T))", fresh().isEqual(CI), isID)
-		fail("(T+(-T)).isEqual(result)", CI.isEqual(fresh()), isID)
-		// the same point reached by a different route: (want - T) + T
-		alt := toR1(ref.Sub(want, Tp))
-		var t2 pointR2
-		t2.FromR1(toR1(Tp))
-		alt.add(&t2)
-		fail("isEqual(other-route)", fresh().isEqual(alt), true)
-		fail("isEqual(different-point)", fresh().isEqual(toR1(ref.Add(want, ref.G))), false)
-		fail("isEqual(-expected)", fresh().isEqual(toR1(ref.Neg(want))), ref.Equal(want, ref.Neg(want)))
-	}
-	check := func(op, class, id string, got *Point, want ecurve.Point, payload interface{}) {
-		{
-			isID := ref.IsIdentity(want)
-			kind := "non-identity"
-			if isID {
-				kind = "identity"
-			}
-			f1, f2 := *got, *got
-			if v := f1.IsIdentity(); v != isID {
-				bad(op, "predicate:IsIdentity|fresh-result|"+kind+"|"+class, id,
-					fmt.Sprintf("%s: Point.IsIdentity() = %v on the freshly computed result (raw coordinates %v), the reference says %v", id, v, *got, isID), payload)
-			}
-			if !f2.IsOnCurve() {
-				bad(op, "predicate:IsOnCurve|fresh-result|"+kind+"|"+class, id, fmt.Sprintf("%s: Point.IsOnCurve() = false on the freshly computed result %v", id, *got), payload)
-			}
-			predsR1(op, class, id, func() *pointR1 { f := *got; var R pointR1; f.toR1(&R); return &R }, want, payload)
+		if !f2.IsOnCurve() {
+			bad(op, "predicate:IsOnCurve|fresh-result|"+kind+"|"+class, id, fmt.Sprintf("%s: Point.IsOnCurve() = false on the freshly computed result %v", id, *got), payload)
 		}
 		g := *got
-		if !same(&g.X, &g.Y, want) {
+		x0, x1 := c13FqInts(&g.X, p)
+		y0, y1 := c13FqInts(&g.Y, p)
+		if x0.Cmp(want.X.A) != 0 || x1.Cmp(want.X.B) != 0 || y0.Cmp(want.Y.A) != 0 || y1.Cmp(want.Y.B) != 0 {
 			bad(op, "wrong-result|"+class, id, fmt.Sprintf("%s: got %v want %v", id, g, want), payload)
 			return
 		}
-		var enc [Size]byte
+		var enc [fourq.Size]byte
 		g.Marshal(&enc)
 		if !bytes.Equal(enc[:], ref.MarshalFourQ(want)) {
 			bad(op, "wrong-encoding|"+class, id, fmt.Sprintf("%s: encodes to %x want %x", id, enc, ref.MarshalFourQ(want)), payload)
 		}
-		if g.IsIdentity() != ref.IsIdentity(want) || !g.IsOnCurve() {
-			bad(op, "IsIdentity/IsOnCurve|"+class, id, id+": predicate disagrees", payload)
-		}
-	}
-	checkR1 := func(op, class, id string, got *pointR1, want ecurve.Point, payload interface{}) {
-		predsR1(op, class, id, func() *pointR1 { f := *got; return &f }, want, payload)
-		g := *got
-		if g.Z.isZero() || !g.IsOnCurve() {
-			bad(op, "invalid-projective|"+class, id, id+": z = 0 or extended coordinates inconsistent", payload)
-			return
-		}
-		g.ToAffine()
-		if !same(&g.X, &g.Y, want) {
-			bad(op, "wrong-result|"+class, id, fmt.Sprintf("%s: got (%v, %v) want %v", id, g.X.String(), g.Y.String(), want), payload)
+		if g.IsIdentity() != isID || !g.IsOnCurve() {
+			bad(op, "IsIdentity/IsOnCurve|after-Marshal|"+class, id, id+": predicate disagrees after Marshal", payload)
 		}
 	}
 	try := func(op, id string, f func()) bool {
@@ -174,13 +123,14 @@ func TestVerifC13_fourq(t *testing.T) {
 		}
 		return true
 	}
-	var G, O Point
+
+	var G, O fourq.Point
 	G.SetGenerator()
 	O.SetIdentity()
 	check("SetGenerator", "G", "gen", &G, ref.G, nil)
 	check("SetIdentity", "O", "id", &O, ref.Identity(), nil)
 	for _, p := range pts {
-		var Q Point
+		var Q fourq.Point
 		enc := c13Key(fpx.FromLE(ref.MarshalFourQ(p.p)))
 		if !Q.Unmarshal(enc) {
 			bad("Unmarshal", "rejects-valid|P="+p.name, "dec/"+p.name, "reference encoding rejected", nil)
@@ -190,64 +140,43 @@ func TestVerifC13_fourq(t *testing.T) {
 		r.Eval(1)
 	}
 
-	// ---- Add on all pairs; internal double / mixAdd / ClearCofactor
+	// ---- Add on all pairs, with the chain ((P+Q)-Q)-P on computed values
 	verifmc.ParallelFor(len(pts)*len(pts), func(idx int) {
 		i, j := idx/len(pts), idx%len(pts)
 		a, b := pts[i], pts[j]
 		id := "add/" + a.name + "/" + b.name
-		if r.Want(id) {
-			want := ref.Add(a.p, b.p)
-			if a.log != nil && b.log != nil && !ref.Equal(want, ref.BaseMult(new(big.Int).Add(a.log, b.log))) {
-				t.Errorf("reference inconsistent on %s", id)
-				return
-			}
-			var out Point
-			if try("Add", id, func() { out.Add(c13Pt(a.p), c13Pt(b.p)) }) {
-				check("Add", "P="+a.name+"|Q="+b.name, id, &out, want, nil)
-			}
-			// chain on computed values: ((P+Q)+(-Q))+(-P) is the identity, reached through non-normalised operands
-			var c1, c2 Point
+		if !r.Want(id) {
+			return
+		}
+		want := ref.Add(a.p, b.p)
+		if a.log != nil && b.log != nil && !ref.Equal(want, ref.BaseMult(new(big.Int).Add(a.log, b.log))) {
+			t.Errorf("reference inconsistent on %s", id)
+			return
+		}
+		var out fourq.Point
+		if try("Add", id, func() { out.Add(c13Pt(a.p), c13Pt(b.p)) }) {
+			check("Add", "P="+a.name+"|Q="+b.name, id, &out, want, nil)
+			var c1, c2 fourq.Point
 			if try("Add", id+"/chain", func() { c1.Add(&out, c13Pt(ref.Neg(b.p))); c2.Add(&c1, c13Pt(ref.Neg(a.p))) }) {
 				check("Add", "chain|P="+a.name+"|Q="+b.name, id+"/chain1", &c1, a.p, nil)
 				check("Add", "chain-to-identity|P="+a.name+"|Q="+b.name, id+"/chain2", &c2, ref.Identity(), nil)
 			}
-			// internal: projective accumulator + affine table entry
-			R := toR1(a.p)
-			var q2 pointR2
-			q2.FromR1(toR1(b.p))
-			if try("mixAdd", id+"/mix", func() { R.mixAdd(&q2.pointR3) }) {
-				checkR1("mixAdd", "P="+a.name+"|Q="+b.name, id+"/mix", R, want, nil)
-			}
-			r.Eval(2)
-			r.Transition(2)
-			r.Distinct("add", a.name, b.name)
-			switch {
-			case ref.IsIdentity(a.p) || ref.IsIdentity(b.p):
-				r.Count("add_with_identity", 1)
-			case ref.Equal(a.p, b.p):
-				r.Count("add_P_eq_Q", 1)
-			case ref.IsIdentity(want):
-				r.Count("add_P_eq_negQ", 1)
-			}
 		}
-		if j == 0 && r.Want("dbl/"+a.name) {
-			D := toR1(a.p)
-			if try("double", "dbl/"+a.name, func() { D.double() }) {
-				checkR1("double", "P="+a.name, "dbl/"+a.name, D, ref.Double(a.p), nil)
-			}
-			C := toR1(a.p)
-			if try("ClearCofactor", "cof/"+a.name, func() { C.ClearCofactor() }) {
-				checkR1("ClearCofactor", "P="+a.name, "cof/"+a.name, C, ref.ScalarMult(big.NewInt(392), a.p), nil)
-			}
-			r.Eval(2)
-			r.Transition(2)
-			r.Distinct("dbl", a.name)
-			r.Distinct("cof", a.name)
+		r.Eval(3)
+		r.Transition(3)
+		r.Distinct("add", a.name, b.name)
+		switch {
+		case ref.IsIdentity(a.p) || ref.IsIdentity(b.p):
+			r.Count("add_with_identity", 1)
+		case ref.Equal(a.p, b.p):
+			r.Count("add_P_eq_Q", 1)
+		case ref.IsIdentity(want):
+			r.Count("add_P_eq_negQ", 1)
 		}
 	})
 	r.Sample(map[string]string{"op": "Add", "P": pts[1].name, "Q": pts[1].name})
 
-	// ---- ScalarMult (with cofactor) on SC x all points; internal ScalarMult on SC x PT; ScalarBaseMult on SC
+	// ---- ScalarMult (with cofactor) on SC x all points; ScalarBaseMult on SC
 	verifmc.ParallelFor(len(sc)*len(pts), func(idx int) {
 		s, i := sc[idx/len(pts)], idx%len(pts)
 		a := pts[i]
@@ -255,7 +184,7 @@ func TestVerifC13_fourq(t *testing.T) {
 		if !r.Want(id) {
 			return
 		}
-		payload := map[string]string{"k_le": verifmc.FullHex(fpx.ToLE(s.V, Size)), "P": verifmc.FullHex(ref.MarshalFourQ(a.p))}
+		payload := map[string]string{"k_le": verifmc.FullHex(fpx.ToLE(s.V, fourq.Size)), "P": verifmc.FullHex(ref.MarshalFourQ(a.p))}
 		k392 := new(big.Int).Mul(s.V, big.NewInt(392))
 		var want ecurve.Point
 		if a.log != nil {
@@ -264,9 +193,8 @@ func TestVerifC13_fourq(t *testing.T) {
 			want = ref.ScalarMult(k392, a.p)
 			r.Count("mult_outside_subgroup", 1)
 		}
-		var out Point
-		k := c13Key(s.V)
-		if try("ScalarMult", id, func() { out.ScalarMult(k, c13Pt(a.p)) }) {
+		var out fourq.Point
+		if try("ScalarMult", id, func() { out.ScalarMult(c13Key(s.V), c13Pt(a.p)) }) {
 			check("ScalarMult", "k="+s.Name+"|P="+a.name, id, &out, want, payload)
 		}
 		r.Eval(1)
@@ -281,17 +209,9 @@ func TestVerifC13_fourq(t *testing.T) {
 		if ref.IsIdentity(want) {
 			r.Count("result_identity", 1)
 		}
-		if a.log != nil {
-			var R pointR1
-			if try("pointR1.ScalarMult", id+"/r1", func() { R.ScalarMult(c13Key(s.V), toR1(a.p)) }) {
-				checkR1("pointR1.ScalarMult", "k="+s.Name+"|P="+a.name, id+"/r1", &R, ref.BaseMult(new(big.Int).Mul(s.V, a.log)), payload)
-			}
-			r.Eval(1)
-			r.Transition(1)
-		}
 		if i == 0 {
 			id := "base/" + s.Name
-			var out Point
+			var out fourq.Point
 			if try("ScalarBaseMult", id, func() { out.ScalarBaseMult(c13Key(s.V)) }) {
 				check("ScalarBaseMult", "k="+s.Name, id, &out, ref.BaseMult(s.V), payload)
 			}
@@ -300,7 +220,7 @@ func TestVerifC13_fourq(t *testing.T) {
 			r.Distinct("base", s.Name)
 		}
 	})
-	r.Sample(map[string]string{"op": "ScalarMult", "k": "N-1", "k_le": verifmc.FullHex(fpx.ToLE(new(big.Int).Sub(N, big.NewInt(1)), Size)), "P": pts[len(pts)-1].name, "P_enc": verifmc.FullHex(ref.MarshalFourQ(pts[len(pts)-1].p))})
+	r.Sample(map[string]string{"op": "ScalarMult", "k": "N-1", "k_le": verifmc.FullHex(fpx.ToLE(new(big.Int).Sub(N, big.NewInt(1)), fourq.Size)), "P": pts[len(pts)-1].name, "P_enc": verifmc.FullHex(ref.MarshalFourQ(pts[len(pts)-1].p))})
 
 	r.RequireCounter("add_P_eq_Q", 5)
 	r.RequireCounter("add_P_eq_negQ", 5)
